@@ -98,7 +98,11 @@ def sched_families(pid, tier):
     if pid == "C07":
         if tier == "quick":
             return [("s2_faults", F2, (1, 2), 0, 0, "ConfigsFaults")]
-        return [("s2_faults_cancel", F2, (1, 2), 1, 0, "ConfigsFaults"), ("s3_faults", F3, (2,), 0, 25, "ConfigsFaults")]
+        # schedules are exported WITHOUT external cancellation: once the context is done a Go `select` with two
+        # ready cases picks either, so the real run may legitimately leave the exported schedule (a thorough run
+        # with cancels=1 raised false schedule-nonconformance alarms); cancellation is covered by the k-th-gate
+        # injection above and by trace validation
+        return [("s2_faults", F2, (1, 2, 3), 0, 0, "ConfigsFaults"), ("s3_faults", F3, (2,), 0, 25, "ConfigsFaults")]
     if tier == "quick" and pid == "C05":
         return [("s3", F3, (2,), 0, 6, "ConfigsNoFaultSmall")]
     if tier == "quick":
@@ -128,8 +132,12 @@ def schedule_replay(pid, tier, wd, st, verdict, binary, rng):
             scheds = rng.sample(scheds, 1500)
         runs = []
         for i, c in enumerate(scheds):
+            sched = c["sched"]
+            if ["ExternalCancel"] in sched:      # defensive: never drive past a cancellation (see sched_families)
+                sched = sched[:sched.index(["ExternalCancel"])]
+                c["truncated"] = True
             runs.append({"id": i + 1, "imports": c["imports"], "req": c["req"], "plan": c["plan"], "par": c["par"],
-                         "ovr": c["ovr"], "seed": 0, "trace": True, "sched": c["sched"]})
+                         "ovr": c["ovr"], "seed": 0, "trace": True, "sched": sched})
         by_id = {x["id"]: x for x in runs}
         res, tracefile = run_real(binary, wd, name, runs)
         for rid, o in res.items():
@@ -141,6 +149,8 @@ def schedule_replay(pid, tier, wd, st, verdict, binary, rng):
                 verdict.disagree("schedule-nonconformance:" + (m.group(1) if m else "?"), small, o["nonconf"])
             elif o.get("hung"):
                 verdict.disagree("hang", small, "controlled schedule did not finish")
+            elif c.get("truncated"):
+                pass
             elif o["class"] != c["mres"] and not (cancels and o["class"] == "ctx"):
                 verdict.disagree("schedule-outcome:%s-instead-of-%s" % (o["class"].split(":")[0], c["mres"]), small, o.get("err", ""))
             if o.get("leak", 0) > 0:
